@@ -41,7 +41,7 @@ class Contract:
                  no_return=False, props=(), ghost_asserts=None, notes="", assumed=False,
                  locals=None, ghost_modifies=(), decreases=None, loop_all=None, closure=None,
                  waive=(), havoc_stmts=(), dyn_call_ghost=None, ghost_calls=(), exit_post=(),
-                 valid_schema=False, raise_post=(), rely=None, call_pre=None, start_at=None):
+                 valid_schema=False, raise_post=(), rely=None, call_pre=None, start_at=None, coroutine=False, budget=1):
         self.target = target
         self.requires = list(requires)
         self.ensures = list(ensures)
@@ -69,6 +69,10 @@ class Contract:
         self.ghost_calls = list(ghost_calls)   # ghost counters of calls to this function
         self.exit_post = list(exit_post)       # clauses over the locals, checked at every return
         self.valid_schema = valid_schema       # assume schema validity facts (A7) in this proof
+        self.budget = budget   # multiplier of the solver resource budget for this function
+        self.coroutine = coroutine   # an `async def` verified as one activation: every `await` is a
+                                     # point where any value or any Exception comes back and every
+                                     # object not created by the activation may have changed
         self.start_at = start_at   # source prefix of the first top-level statement that is executed:
                                    # the statements before it are cut (their assigned names and
                                    # stored attributes become arbitrary values; reported)
@@ -143,7 +147,8 @@ class World:
             if node is None:
                 # definitions nested in if/try blocks
                 for n in ast.walk(ast.Module(body=scope, type_ignores=[])):
-                    if isinstance(n, (ast.FunctionDef, ast.ClassDef)) and n.name == p:
+                    if isinstance(n, (ast.FunctionDef, ast.AsyncFunctionDef, ast.ClassDef)) \
+                            and n.name == p:
                         node = n
                         break
             if node is None:
